@@ -62,8 +62,15 @@ def _permit():
     return {1: {"action": "PERMIT"}}
 
 
-def topo(kind: str, du: int, dd: int, init: str = ON) -> Dict:
+X = "x"
+SPARE_PORT = {"computer": 2, "server": 2, "switch": 3, "router": 3, "firewall": 3}  # free wired interface of the subject
+
+
+def topo(kind: str, du: int, dd: int, init: str = ON, spare: bool = False) -> Dict:
+    """spare=True adds an unlinked always-on computer 'x' (and a second NIC on a host subject) for cabling operations."""
     kw: Dict[str, Any] = dict(start_up_duration=du, shut_down_duration=dd)
+    if spare and kind in HOSTS:
+        kw["network_interfaces"] = {2: {"ip_address": "10.9.9.1", "subnet_mask": "255.255.255.0"}}
     if init == OFF:
         kw["operating_state"] = "OFF"
     z = dict(start_up_duration=0, shut_down_duration=0)
@@ -110,6 +117,8 @@ def topo(kind: str, du: int, dd: int, init: str = ON) -> Dict:
         links = [link(P, 1, S, 2), link(Q, 1, "r2", 2)]  # port 1 of a wireless router is the access point
     else:
         raise ValueError(kind)
+    if spare:
+        nodes.append(computer(X, "10.9.9.2", **z))
     return base_cfg(nodes, links)
 
 
@@ -133,7 +142,9 @@ def facing_port(kind: str) -> int:
 # requests (formed by the action classes wherever one exists)
 
 _REQ_MEMO: Dict[str, Dict[str, List]] = {}
-SVC_VERBS = ["scan", "stop", "start", "pause", "resume"]
+SVC_VERBS = ["scan", "stop", "start", "pause", "resume", "disable", "enable"]
+APP_VERBS = ["close", "scan"]
+API_OPS = ["enable", "enable_port", "configure", "connect", "episode"]
 FILE_VERBS = ["create", "delete", "scan"]
 FILE_NAMES = ["x.txt", "y.txt"]
 
@@ -167,12 +178,13 @@ def requests(kind: str) -> Dict[str, List]:
         for v in FILE_VERBS:
             r[f"file-{v}:{fn}"] = am.form_request(f"node-file-{v}", {**n, "folder_name": "fa", "file_name": fn})
     port = facing_port(kind)
+    app = "web-browser" if kind in HOSTS else ("nmap" if kind in ROUTERS else None)
+    if app:
+        for v in APP_VERBS:
+            r[f"app-{v}"] = am.form_request(f"node-application-{v}", {**n, "application_name": app})
     if kind in HOSTS:
         r["nic-disable"] = am.form_request("host-nic-disable", {**n, "nic_num": port})
         r["nic-enable"] = am.form_request("host-nic-enable", {**n, "nic_num": port})
-        r["app-execute"] = am.form_request("node-application-execute", {**n, "application_name": "web-browser"})
-        r["app-close"] = am.form_request("node-application-close", {**n, "application_name": "web-browser"})
-        r["app-install"] = am.form_request("node-application-install", {**n, "application_name": "database-client"})
     else:
         r["nic-disable"] = am.form_request("network-port-disable", {"target_nodename": S, "port_num": port})
         r["nic-enable"] = am.form_request("network-port-enable", {"target_nodename": S, "port_num": port})
@@ -362,10 +374,12 @@ def _capture(iface, frame):
 
 
 class Sim:
-    def __init__(self, kind: str, du: int, dd: int, init: str, watch: bool = True):
+    def __init__(self, kind: str, du: int, dd: int, init: str, watch: bool = True, spare: bool = False):
         self.kind = kind
-        self.game = new_game(topo(kind, du, dd, init))
+        self.game = new_game(topo(kind, du, dd, init, spare))
         net = self.game.simulation.network
+        self.net = net
+        self.x = net.get_node_by_hostname(X) if spare else None
         self.s = net.get_node_by_hostname(S)
         self.p = net.get_node_by_hostname(P)
         self.q = net.get_node_by_hostname(Q) if kind not in HOSTS else None
@@ -417,6 +431,58 @@ class Sim:
         sv = {x.name for x in self.s.services.values() if x.operating_state.name == "RUNNING"}
         ap = {x.name for x in self.s.applications.values() if x.operating_state.name == "RUNNING"}
         return sv, ap
+
+    def software_states(self) -> Tuple[Dict[str, str], Dict[str, str]]:
+        return ({x.name: x.operating_state.name for x in self.s.services.values()},
+                {x.name: x.operating_state.name for x in self.s.applications.values()})
+
+    def links_up(self) -> List[str]:
+        """Links attached to an interface of the subject that report themselves up."""
+        mine = {id(i) for i in self.ifaces.values()}
+        return [str(l) for l in self.net.links.values()
+                if (id(l.endpoint_a) in mine or id(l.endpoint_b) in mine) and l.is_up]
+
+    def api(self, name: str) -> bool:
+        """API-level operations that end in NetworkInterface.enable(); False = not applicable to this node type."""
+        s, kind = self.s, self.kind
+        if name == "enable":
+            for i in self.ifaces.values():
+                i.enable()
+        elif name == "episode":
+            for i in self.ifaces.values():
+                i.setup_for_episode(episode=1)
+        elif name == "enable_port":
+            if kind not in ROUTERS:
+                return False
+            for n in list(s.network_interface):
+                s.enable_port(n)
+        elif name == "configure":
+            m = "255.255.255.0"
+            if kind == "router":
+                s.configure_port(1, "192.168.1.1", m)
+                s.configure_port(2, "192.168.2.1", m)
+                s.enable_port(1)
+                s.enable_port(2)
+            elif kind == "firewall":
+                s.configure_external_port("192.168.1.1", m)
+                s.configure_internal_port("192.168.2.1", m)
+                s.configure_dmz_port("192.168.9.1", m)
+            elif kind == "wireless-router":
+                s.configure_router_interface("192.168.1.1", m)
+                s.configure_wireless_access_point("192.168.3.1", m)
+            else:
+                return False
+        elif name == "connect":
+            port = SPARE_PORT.get(kind)
+            if port is None or self.x is None:
+                return False
+            a, b = s.network_interface[port], self.x.network_interface[1]
+            if a._connected_link is not None or b._connected_link is not None:
+                return False
+            self.net.connect(a, b)
+        else:
+            raise ValueError(name)
+        return True
 
 
 # ---------------------------------------------------------------------------------------------------------------------
@@ -566,6 +632,9 @@ def check_not_on(sim: Sim, res: CaseResult, when: str, phase: str, comp: List[st
             for n in up:
                 sim.ifaces[n].disable()
             res.label("excluded:C12-instant-off-ifaces")
+    lk = sim.links_up()
+    if lk:
+        res.violate(f"link-up-not-on:{phase}", f"{w}: links {lk} to the node are up")
     # 2. software refuses to act
     for sw in list(sim.s.software_manager.software.values()):
         can = getattr(sw, "_can_perform_action", None)
@@ -673,6 +742,8 @@ def op_key(op: List) -> Optional[str]:
         return f"service-{op[1]}"
     if op[0] == "file":
         return f"file-{op[1]}:{op[2]}"
+    if op[0] == "app":
+        return f"app-{op[1]}"
     return None
 
 
@@ -686,17 +757,17 @@ def run_case(case: Dict) -> CaseResult:
     check_baseline(kind, "down", dd, res)
     check_baseline(kind, "up", du, res)
 
-    sim = Sim(kind, du, dd, init)
+    sim = Sim(kind, du, dd, init, spare=any(list(o) == ["api", "connect"] for o in ops))
     obs = sim.state()
     if obs != init:
         res.label("init-mismatch")
     model = Model(du, dd, obs)
     ports0: List[int] = []
-    last_running: Tuple[set, set] = (set(), set())
+    last_states: Tuple[Dict[str, str], Dict[str, str]] = ({}, {})
     ever_on = False
 
     def on_bookkeeping(first: bool, when: str):
-        nonlocal ports0, last_running, ever_on
+        nonlocal ports0, last_states, ever_on
         if first and not ever_on:
             # calibration of the traffic oracles on the pristine, powered network
             ok = True
@@ -711,7 +782,7 @@ def run_case(case: Dict) -> CaseResult:
             res.label("calibrated" if ok else "calibration-failed")
             ports0 = sim.enabled_ports()
             ever_on = True
-        last_running = sim.running()
+        last_states = sim.software_states()
 
     if obs == ON:
         on_bookkeeping(True, "init")
@@ -720,7 +791,9 @@ def run_case(case: Dict) -> CaseResult:
         check_not_on(sim, res, "init", model.phase, comp)
 
     for op in ops:
-        if op[0] not in ("shutdown", "startup", "reset", "tick", "svc", "file", "ping", "arp"):
+        if op[0] not in ("shutdown", "startup", "reset", "tick", "svc", "file", "app", "api", "ping", "arp") or (
+            op[0] == "api" and op[1] not in API_OPS
+        ):
             raise ValueError(f"C12 harness: unknown op {op}")
     nontrivial = False
     seen = {obs}
@@ -749,7 +822,15 @@ def run_case(case: Dict) -> CaseResult:
             elif k == "tick":
                 guarded(res, k, when, sim.tick)
                 cands, name = model.after_tick()
-            elif k in ("svc", "file"):
+            elif k == "api":
+                if not guarded(res, f"api-{op[1]}", when, sim.api, op[1]):
+                    res.label("op-not-applicable")
+                    continue
+                res.label(f"api:{op[1]}:{'on' if pre == ON else pre_phase}")
+                if pre != ON:
+                    nontrivial = True
+                cands, name = {pre: dict()}, None
+            elif k in ("svc", "file", "app"):
                 key = op_key(op)
                 if key not in sim.reqs:
                     res.label("op-not-applicable")
@@ -818,11 +899,19 @@ def run_case(case: Dict) -> CaseResult:
                     down = [n for n in ports0 if not sim.ifaces[n].enabled]
                     if down:
                         res.violate("iface-not-enabled-back-on", f"{when}: interfaces {down} were up before and are disabled after the return to ON")
-                    sv, ap = sim.running()
-                    if last_running[0] - sv:
-                        res.violate("service-not-running-back-on", f"{when}: {sorted(last_running[0] - sv)} ran before the power cycle")
-                    if last_running[1] - ap:
-                        res.violate("application-not-running-back-on", f"{when}: {sorted(last_running[1] - ap)} ran before the power cycle")
+                    # power_on 'starts all Services and Applications' (base_hardware.rst): whatever was RUNNING, PAUSED or
+                    # STOPPED / CLOSED when the node left ON runs again; DISABLED, RESTARTING, INSTALLING are not asserted
+                    sv, ap = sim.software_states()
+                    for name_, was in sorted(last_states[0].items()):
+                        if was in ("RUNNING", "PAUSED", "STOPPED") and sv.get(name_) != "RUNNING":
+                            res.violate(f"service-not-running-back-on:was-{was.lower()}",
+                                        f"{when}: service {name_} was {was} when the node left ON and is {sv.get(name_)} after the power cycle")
+                    for name_, was in sorted(last_states[1].items()):
+                        if was in ("RUNNING", "CLOSED") and ap.get(name_) != "RUNNING":
+                            res.violate(f"application-not-running-back-on:was-{was.lower()}",
+                                        f"{when}: application {name_} was {was} when the node left ON and is {ap.get(name_)} after the power cycle")
+                    for was in sorted(set(last_states[0].values()) | set(last_states[1].values())):
+                        res.label(f"cycle-with:{was}")
             on_bookkeeping(False, when)
         else:
             scan_monitor(sim, res, when, model.phase)
@@ -865,7 +954,11 @@ def noise_strategy():
         st.just(["tick"]),
         st.just(["tick"]),
         st.tuples(st.just("svc"), st.sampled_from(SVC_VERBS)).map(list),
+        st.tuples(st.just("svc"), st.sampled_from(["pause", "stop", "disable"])).map(list),
         st.tuples(st.just("file"), st.sampled_from(FILE_VERBS), st.sampled_from(FILE_NAMES)).map(list),
+        st.tuples(st.just("app"), st.sampled_from(APP_VERBS)).map(list),
+        st.tuples(st.just("api"), st.sampled_from(API_OPS)).map(list),
+        st.tuples(st.just("api"), st.sampled_from(API_OPS)).map(list),
         st.just(["ping"]),
         st.just(["arp"]),
     )
@@ -915,6 +1008,38 @@ def exhaustive_cases(depth: int, durs: List[int], comp: List[str]):
             for du in durs:
                 for dd in durs:
                     yield mk(kind, du, dd, OFF, seq)
+    yield from family_cases(durs, mk)
+
+
+PREPS = [[], [["svc", "pause"]], [["svc", "stop"]], [["svc", "disable"]], [["app", "close"]], [["svc", "pause"], ["app", "close"]]]
+
+
+def family_cases(durs: List[int], mk):
+    """Two enumerated families that need more depth than the exhaustive part has.
+
+    (a) whole power cycles with prepared software states: prep, shutdown|reset, ticks until OFF, (startup,) ticks until ON;
+    (b) every API-level operation that ends in NetworkInterface.enable(), issued once in each non-ON state
+        (SHUTTING_DOWN, OFF, BOOTING; declared OFF, BOOTING from declared OFF) and followed by a ping from the peer.
+    """
+    T = ["tick"]
+    for kind in KINDS:
+        for du in durs:
+            for dd in durs:
+                for prep in PREPS:
+                    for via in ("shutdown", "reset"):
+                        ops = prep + [[via]] + [T] * (dd + 1) + ([["startup"]] if via == "shutdown" else []) + [T] * (du + 1) + [["ping"]]
+                        yield mk(kind, du, dd, ON, ops)
+                for api in API_OPS:
+                    a, down = ["api", api], [["shutdown"]] + [T] * (dd + 1)
+                    yield mk(kind, du, dd, ON, [["shutdown"], a, ["ping"]])  # SHUTTING_DOWN (OFF when dd = 0)
+                    yield mk(kind, du, dd, ON, down + [a, ["ping"]])  # OFF
+                    yield mk(kind, du, dd, ON, down + [["startup"], a, ["ping"], T])  # BOOTING (ON when du = 0)
+                    yield mk(kind, du, dd, OFF, [a, ["ping"]])  # declared OFF
+                    yield mk(kind, du, dd, OFF, [["startup"], a, ["ping"], T])  # declared OFF, then BOOTING
+
+
+def n_family(durs: List[int]) -> int:
+    return len(KINDS) * len(durs) ** 2 * (len(PREPS) * 2 + len(API_OPS) * 5)
 
 
 def worker(ctx: Ctx):
@@ -929,6 +1054,7 @@ def worker(ctx: Ctx):
     ctx.extra["exhaustive_domain"] = (
         f"({n_seq} sequences of length {depth} over the 8-symbol alphabet containing a shutdown or reset, initial state ON, "
         f"+ all {n_off} sequences of length {depth - 1}, declared OFF) x {len(KINDS)} node types x durations {durs}^2 = "
-        f"{(n_seq + n_off) * per} cases"
+        f"{(n_seq + n_off) * per} cases; + {n_family(durs)} enumerated family cases (power cycles with prepared PAUSED/STOPPED/"
+        f"DISABLED/CLOSED software; every enable()-reaching API operation in every non-ON state)"
     )
     hyp_run(ctx, case_strategy(25, comp), run_case, 100 if quick else 1500)
